@@ -234,6 +234,24 @@ def run(ctx):
     st = P.fn('cppcms::http::file::save_to')
     w = [i for i in q.field_writes(st, 'file::removed_') if st.const_value(st.N(i)['ch'][1]) == 1]
     ctx.check(len(w) >= 1, R4, 'file::save_to:marks-moved', 'a saved file would be deleted by the destructor', st.where)
+    # removed_ = 1 switches the destructor's clean-up off: it may be set only when the temporary file is really gone
+    # (renamed away, or explicitly removed after the copy fall-back)
+    rn = [i for i in st.calls() if q.short_of(st.callee(i)) == 'rename']
+    rmv = [i for i in st.calls() if q.short_of(st.callee(i)) in ('remove', 'unlink')]
+    g_moved = st.gate_edges(lambda atom, pol: st.N(atom)['k'] == 'BinaryOperator' and st.N(atom).get('op') in ('!=', '==') and any(j in rn for j in st.calls(atom)) and st.const_value(st.N(atom)['ch'][1]) == 0 and pol is (st.N(atom)['op'] == '=='))
+    g_mem = q.call_gate(st, lambda i: q.short_of(st.callee(i)) == 'in_memory', True)
+    for k_, w_ in enumerate(w):
+        reach = st.reachable_blocks(cut_edges=[e for e in list(g_moved) + list(g_mem) if len(e) == 4], cut_blocks=q.blocks_of(st, rmv))
+        ctx.check(bool(rn) and st.point_of(w_)[0] not in reach, R4, 'file::save_to:marked-moved#%d:only-when-temp-file-gone' % k_,
+                  'save_to disables the clean-up although the temporary file can still exist (rename failed, copy made, no remove)', st.loc(w_))
+    # a field value is copied into post() from the start of its stream, whatever a content filter read before
+    rfs = [f for f in P.fns.values() if f.short == 'read_file' and f.file.endswith('/src/http_request.cpp')]
+    ctx.require(len(rfs) == 1, 'C12.R3: helper read_file not found in http_request.cpp')
+    rf_ = rfs[0]
+    sp_ = [p_['ref'] for p_ in rf_.params if 'basic_istream' in rf_.types[p_['t']]]
+    sk = [i for i in rf_.calls() if q.short_of(rf_.callee(i)) == 'seekg' and sp_ and rf_.ref_of(rf_.obj(i)) == sp_[0] and any(rf_.N(j)['k'] == 'IntegerLiteral' and rf_.const_value(j) == 0 for j in rf_.walk(rf_.args(i)[0])) and not [r for r in rf_.subtree_refs(rf_.args(i)[0]) if r.startswith(('v:', 'p:', 'f:'))]]
+    drains = [i for i in rf_.calls() if q.short_of(rf_.callee(i)) in ('sbumpc', 'sgetc', 'sgetn', 'snextc', 'read', 'get', 'getline', 'readsome')]
+    ctx.check(bool(sp_) and len(sk) >= 1 and bool(drains) and all(q.before(rf_, sk[0], dcall) for dcall in drains), R3, 'read_file:rewinds-before-copying', 'a form field is copied into post() from wherever the stream position was left (a reading content filter truncates it)', rf_.where)
 
     # ---------------- R5
     cons = [f for f in P.fns.values() if f.brecord == MP and f.short == 'consume']
